@@ -867,3 +867,42 @@ func raceViolations(x *vrt.Exec) []vrt.Violation {
 	}
 	return out
 }
+
+// oracleC01plain: termination without reference knowledge (no deadlock, no livelock, error xor output).
+func oracleC01plain(s *Scenario, x *vrt.Exec, o *Obs) []vrt.Violation {
+	var out []vrt.Violation
+	oc := x.Outcome()
+	if oc.StepLimit {
+		out = append(out, viol(s, "livelock", "steplimit", "execution exceeded the step limit"))
+	}
+	if oc.Deadlock {
+		out = append(out, viol(s, "never-returns", blockedKey(oc.Blocked), "execution blocks forever: "+strings.Join(oc.Blocked, "; ")))
+	}
+	if o.Returned && o.Err != nil && (o.ID != "" || o.Data != nil) {
+		out = append(out, viol(s, "error-and-output", o.ID, "Execute returned both an error and an output"))
+	}
+	return out
+}
+
+// oracleC08plugin: whatever a misbehaving plugin answered, the returned workflow output conforms to the
+// workflow's output schema and no value that violates the step's declared output schema is reported
+// as that output.
+func oracleC08plugin(s *Scenario, x *vrt.Exec, o *Obs) []vrt.Violation {
+	var out []vrt.Violation
+	for _, v := range oracleC08(s, x, o) {
+		if strings.Contains(v.Key, "/internal-bug-error/") {
+			continue // the engine's own description of a plugin that broke its contract
+		}
+		if strings.Contains(v.Key, "/stage-output-violates-schema/") || strings.Contains(v.Key, "/undeclared-stage-output/") {
+			// what the provider passes on from the misbehaving plugin itself is the plugin's fault; what
+			// matters is that nothing downstream (stage inputs, the workflow output) is built from it
+			parts := strings.Split(v.Key, "/")
+			step := strings.SplitN(parts[len(parts)-1], ".", 2)[0]
+			if k := s.Script.For(step).Run; k == env.RunBadOutputID || k == env.RunBadOutputData {
+				continue
+			}
+		}
+		out = append(out, v)
+	}
+	return out
+}
